@@ -164,15 +164,59 @@ class LPDB:
 
         def call(it, obj, model, vd, month):
             func = BoundMethod(obj, self.method(row["function"]))
-            return it.call_function(fn, [model, vd, month, opt_type, func, row["food_name"]], {}, obj)
+            kwargs = self.by_role(fn, dict(model=model, variables=vd, month=month, optimization_type=opt_type, function=func,
+                                           food_name=row["food_name"]))
+            return it.call_function(fn, [], kwargs, obj)
 
         return self.extract("resource:" + flag, opt_type, call, preset={"consts." + flag: True})
+
+    ROLE_WORDS = (("model", ("model", "problem", "lp")), ("variables", ("variables", "vars", "variable")),
+                  ("month", ("month", "m", "t")), ("optimization_type", ("optimization_type", "opt_type", "type")),
+                  ("function", ("func", "function", "fn", "callback")), ("food_name", ("food_name", "name", "food")),
+                  ("maximize_constraints", ("maximize_constraints", "constraints", "objectives")),
+                  ("nmonths", ("nmonths", "n_months", "n")))
+
+    def by_role(self, fn, roles):
+        """keyword arguments for `fn` from values known by role: a parameter takes the value whose role its name states (or, for the
+        function role, the parameter the body calls); parameters of `fn` with no role here and a default are left to the default.  The
+        order, number and spelling of the parameters are the callee's own business"""
+        from .core import walk_no_nested
+        params = [a.arg for a in fn.args.args][1:]
+        n_default = len(fn.args.defaults)
+        called = {c.func.id for c in walk_no_nested(fn) if isinstance(c, ast.Call) and isinstance(c.func, ast.Name)}
+        out = {}
+        for i, p_ in enumerate(params):
+            low = p_.lower()
+            role = None
+            if p_ in called and "function" in roles:
+                role = "function"
+            else:
+                for r, words in self.ROLE_WORDS:
+                    if r in roles and (low == r or low in words):
+                        role = r
+                        break
+                if role is None:
+                    for r, words in self.ROLE_WORDS:
+                        if r in roles and r not in out.values() and any(w in low.split("_") or (len(w) > 3 and w in low)
+                                                                         for w in words):
+                            role = r
+                            break
+            if role is None:
+                if i >= len(params) - n_default:
+                    continue
+                raise AnalysisError(f"{fn.name}: parameter {p_!r} has no role the builder's call gives it "
+                                    f"(known: {sorted(roles)})")
+            out[p_] = role
+        return {p_: roles[r] for p_, r in out.items()}
 
     def extract_method(self, name, opt_type, argfn, preset=None, month_param=True):
         fn = self.method(name)
 
         def call(it, obj, model, vd, month):
-            args, kwargs = argfn(it, obj, model, vd, month)
+            got = argfn(it, obj, model, vd, month)
+            if isinstance(got, dict):
+                return it.call_function(fn, [], self.by_role(fn, got), obj)
+            args, kwargs = got
             return it.call_function(fn, args, kwargs, obj)
 
         return self.extract(name, opt_type, call, preset=preset, month_param=month_param)
@@ -247,18 +291,19 @@ def build_all(index):
     for flag in db.resources:
         for opt in ("to_humans", "to_animals"):
             db.extract_resource(flag, opt)
-    mv = lambda it, obj, model, vd, month: ([model, vd, month, obj.attrs["optimization_type"]], {})
+    mv = lambda it, obj, model, vd, month: dict(model=model, variables=vd, month=month,
+                                                optimization_type=obj.attrs["optimization_type"])
     for opt in ("to_humans", "to_animals"):
         db.extract_method("add_feed_biofuel_to_model", opt, mv)
         db.extract_method("add_percentage_intake_constraints", opt, mv)
     db.extract_method("add_total_human_consumption_to_model", "to_humans", mv)
     db.extract_method(
         "add_maximize_min_month_objective_to_model", "to_humans",
-        lambda it, obj, model, vd, month: ([model, vd, month, PList([])], {}),
+        lambda it, obj, model, vd, month: dict(model=model, variables=vd, month=month, maximize_constraints=PList([])),
     )
     db.extract_method(
         "add_maximize_sum_total_feed_used_by_animals", "to_animals",
-        lambda it, obj, model, vd, month: ([model, vd, Rat.atom(NSYM)], {}), month_param=False,
+        lambda it, obj, model, vd, month: dict(model=model, variables=vd, nmonths=Rat.atom(NSYM)), month_param=False,
     )
     for floor_helper, opt in (("constrain_next_optimization_to_have_same_minimum_starvation", "to_humans"),
                               ("constrain_next_optimization_to_have_same_feed_biofuel", "to_animals")):
